@@ -40,6 +40,37 @@ type c09Ctx struct {
 	hook  *c09Hook
 	// down is set between C09.close and C09.open
 	down bool
+	// scripted UnitID generator: gcalls counts its calls; when flipAfter = k > 0
+	// the hour moves on by one right after the k-th call has been answered
+	gcalls    atomic.Int32
+	flipAfter atomic.Int32
+}
+
+// unitID is the UnitID generator of the context.
+func (c *c09Ctx) unitID() uint32 {
+	n := c.gcalls.Add(1)
+	v := c.clock.Load()
+	if k := c.flipAfter.Load(); k > 0 && n == k {
+		c.clock.Add(1)
+	}
+
+	return v
+}
+
+// newScripted runs New while the hour flips after the k-th clock read of that
+// call; it returns how many times New read the clock.
+func (c *c09Ctx) newScripted(limitMs int64, enabled bool, k int) (calls int) {
+	c.gcalls.Store(0)
+	c.flipAfter.Store(int32(k))
+	s, err := New(c.conf(limitMs, enabled))
+	c.flipAfter.Store(0)
+	if err != nil {
+		c.s = nil
+		panic("New: " + err.Error())
+	}
+	c.s = s
+
+	return int(c.gcalls.Load())
 }
 
 // c09Hook lets a harness op stall the implementation at a log call (the
@@ -102,7 +133,7 @@ func (c *c09Ctx) conf(limitMs int64, enabled bool) Config {
 
 	return Config{
 		Logger:            slog.New(c09Handler{h: c.hook}),
-		UnitID:            func() uint32 { return c.clock.Load() },
+		UnitID:            c.unitID,
 		ConfigModified:    func() {},
 		ShouldCountClient: func([]string) bool { return true },
 		Filename:          filepath.Join(c.dir, "stats.db"),
@@ -417,6 +448,11 @@ func c09Run(f []string) []string {
 			c.clock.Store(c09U32(f[1]))
 
 			return c.observeDown()
+		case "C09.openflip":
+			calls := c.newScripted(c09I64(f[1]), vutil.UnB(f[2]), vutil.Atoi(f[3]))
+			c.down = false
+
+			return append([]string{"g" + strconv.Itoa(calls)}, c.observe(true, 0)...)
 		case "C09.open":
 			s, err := New(c.conf(c09I64(f[1]), vutil.UnB(f[2])))
 			if err != nil {
@@ -488,6 +524,15 @@ func c09Run(f []string) []string {
 		c.s = s
 
 		return c.observe(true, 0)
+	case "C09.restartflip":
+		// Close, the clock shows hour f[1], New — and the hour flips during New
+		if err := c.s.Close(); err != nil {
+			panic("Close: " + err.Error())
+		}
+		c.clock.Store(c09U32(f[1]))
+		calls := c.newScripted(c09I64(f[2]), vutil.UnB(f[3]), vutil.Atoi(f[4]))
+
+		return append([]string{"g" + strconv.Itoa(calls)}, c.observe(true, 0)...)
 	case "C09.setdays":
 		c.httpDo(c.s.handleStatsConfig, http.MethodPost, `{"interval":`+f[1]+`}`)
 
@@ -854,7 +899,16 @@ func c09Gen(r *rand.Rand, emit vutil.Emit) {
 					lm = c09GenLimit(r)
 				}
 				limH = lm / 3600000
-				emit("C09.open", strconv.FormatInt(lm, 10), vutil.B(r.IntN(12) > 0))
+				if r.IntN(3) == 0 {
+					// the hour flips while New runs, after its k-th clock read
+					k := 1 + r.IntN(3)
+					emit("C09.openflip", strconv.FormatInt(lm, 10), vutil.B(r.IntN(12) > 0), vutil.Itoa(k))
+					if k == 1 {
+						clock++
+					}
+				} else {
+					emit("C09.open", strconv.FormatInt(lm, 10), vutil.B(r.IntN(12) > 0))
+				}
 			case k < cfgWeight+78:
 				if r.IntN(2) == 0 {
 					gap := c09GenGap(r, limH)
@@ -867,7 +921,15 @@ func c09Gen(r *rand.Rand, emit vutil.Emit) {
 					lm = c09GenLimit(r)
 				}
 				limH = lm / 3600000
-				emit("C09.restart", vutil.Itoa(int(clock)), strconv.FormatInt(lm, 10), vutil.B(r.IntN(12) > 0))
+				if r.IntN(3) == 0 && clock < 4294967290 {
+					k := 1 + r.IntN(3)
+					emit("C09.restartflip", vutil.Itoa(int(clock)), strconv.FormatInt(lm, 10), vutil.B(r.IntN(12) > 0), vutil.Itoa(k))
+					if k == 1 {
+						clock++
+					}
+				} else {
+					emit("C09.restart", vutil.Itoa(int(clock)), strconv.FormatInt(lm, 10), vutil.B(r.IntN(12) > 0))
+				}
 			case k < cfgWeight+80:
 				emit("C09.clear")
 			default:
